@@ -109,6 +109,19 @@ def gen_cases(rng, tier, boost=1):
         if rng.random() < 0.5:
             a, b = b, a
         add("S_random", "S %d %s %s" % (w, fmt_list(a), fmt_list(b)))
+    # ---- I: HAItem_T / HLItem_T pairs: all pairs of keys of length <= 3 over {a,b,c} in three widths + random related keys ----
+    ibase = short_strings([97, 98, 99], 3)
+    for w in (0, 1, 2):
+        for a in ibase:
+            for b in ibase:
+                add("I_exhaustive", "I %d %s %s" % (w, fmt_list(a), fmt_list(b)))
+    for _ in range((1500 if quick else 30000) * boost):
+        w = rng.choice([0, 0, 1, 2, 3])
+        a = rand_units(rng, w, rng.choice([0, 1, 2, 5, 8, 17]), small=rng.random() < 0.6)
+        b = related(rng, w, a)
+        if rng.random() < 0.5:
+            a, b = b, a
+        add("I_random", "I %d %s %s" % (w, fmt_list(a), fmt_list(b)))
     # ---- T: triples ----
     if quick and boost == 1:
         sel = [s for s in base if len(s) <= 2] + rng.sample([s for s in base if len(s) > 2], 27)   # 13 + 27 = 40
@@ -241,7 +254,7 @@ def nontrivial(case):
     N/L/R/J: at least two elements, not all equal; H: at least two distinct keys inserted."""
     tk = case.split(" ")
     k = tk[0]
-    if k == "S":
+    if k in ("S", "I"):
         return tk[2] != tk[3]
     if k == "T":
         return not (tk[2] == tk[3] == tk[4])
@@ -275,7 +288,7 @@ def case_parts(case):
 
     def felems(l):
         return ";".join(l) if l else "~"
-    if k == "S":
+    if k in ("S", "I"):
         return [units(tk[2]), units(tk[3])], lambda p: " ".join(tk[:2] + [funits(p[0]), funits(p[1])])
     if k == "T":
         return [units(tk[2]), units(tk[3]), units(tk[4])], lambda p: " ".join(tk[:2] + [funits(x) for x in p])
@@ -308,10 +321,11 @@ def minimise(exe, case, want_oracle_fail=True):
     return rebuild(parts)
 
 
-FORMAT = ("S w a b | T w a b c | V w va vb | N dir list | L dir list | R dir w strs | J dir w vals | H dir w via ops queries "
+FORMAT = ("S w a b | I w a b | T w a b c | V w va vb | N dir list | L dir list | R dir w strs | J dir w vals | H dir w via ops queries "
           "(w: 0 char 1 char16_t 2 char32_t 3 wchar_t; dir 1 ascending 0 descending; strings as comma separated code units, - empty; "
           "values u n t f U<n> I<z> D<bits> S<units> A<size> O<size> P<value>; ops key=value insert-or-assign, key! remove)")
-OBSERVED = {"S": "six results < <= > >= == != of String / StringView / the const Char_T* overloads (< <= > >=)",
+OBSERVED = {"S": "six results < <= > >= == != of String OP String / StringView OP StringView / String OP (const Char_T*) / StringView OP (const Char_T*); the C string is b followed by NUL, i.e. b cut at its first NUL",
+            "I": "five results < > <= >= == of HAItem_T / HLItem_T with keys a, b (Hash, Next, Value differ)",
             "T": "six String results for (a,b) / (b,c) / (a,c)",
             "V": "Value results < > <= >= ==",
             "N": "Array<SizeT64> after Sort", "L": "numbers rendered by <loop sort=...>", "R": "Array<String> after Sort",
@@ -358,12 +372,12 @@ def check(tier):
 
     found_input = False
     reported = {}
-    prio = {k: n for n, k in enumerate("VSJRHLNT")}
+    prio = {k: n for n, k in enumerate("VSIJRHLNT")}
     sigs = set()
     for (c, i, m, tag) in sorted(r.oracle_fail, key=lambda x: prio.get(x[0][0], 9)):
         kind = c.split(" ")[0]
         # at most three per kind and ten in all; for the operator cases one per (observed, expected) pattern
-        sig = (kind, i, m) if kind in ("V", "S", "T") else None
+        sig = (kind, i, m) if kind in ("V", "S", "T", "I") else None
         if reported.get(kind, 0) >= 3 or sum(reported.values()) >= 10 or (sig and sig in sigs):
             continue
         small = minimise(exe, c, True)
@@ -412,7 +426,10 @@ def check(tier):
         "evaluations": n_eval,
         "distinct_nontrivial": nt,
         "rule": "S: all 121^2 pairs of strings of length <= 4 over {a,b,c} (char) + pairs over seven other alphabets/widths (signed-char range, NUL, surrogates, top of range) "
-                "+ random long strings sharing prefixes; T: all triples of %s + random; V: all pairs of a %d-value pool covering every kind, NaN, and pointers (1-3 levels) on either side + random numbers/doubles by bit pattern; "
+                "+ random long strings sharing prefixes; every S case evaluates all six operators of String and of StringView in BOTH overloads: object right-hand side, and (const Char_T*) right-hand side "
+                "where the C string is b followed by a terminator, so the expected right operand is b CUT AT ITS FIRST NUL (embedded NULs are kept by the generator; model cstr_ops = str_ops on cstr_cut b, theorem c15_cstring_overloads); "
+                "I: HAItem_T and HLItem_T operators < > <= >= == on all pairs of keys of length <= 3 over {a,b,c} in char/char16_t/char32_t + random related keys (they map to the string operators on the keys: item_ops, theorem c15_item_operators); "
+                "T: all triples of %s + random; V: all pairs of a %d-value pool covering every kind, NaN, and pointers (1-3 levels) on either side + random numbers/doubles by bit pattern; "
                 "N/L/R/J/H: exhaustive number lists of length <= 5 over {0,1,2}, random lists <= 12 (some 60) with duplicates, sorted, reversed, hash arrays with overwrites and removed members (tombstones), ascending and descending. "
                 "non-trivial: strings differ / elements not all equal / two or more keys; counted as distinct case lines" % (
                     "a 40-string subset (40^3)" if tier == "quick" else "the 121 strings (121^3)", len(VAL_POOL + VAL_NAN + PTR_POOL + PTR2_POOL)),
